@@ -817,6 +817,9 @@ func splitAvcc(b []byte) ([][]byte, bool) {
 // are relayed verbatim; those of an RTSP incarnation are built by lal's
 // RTP -> RTMP remuxer and are recognised by their content.
 func (w *world) attribute(r lalclient.Rec) (out []attr, unknown string) {
+	if w.c.DummyAudio && r.Type == gen.TypeAudio && bytes.Equal(r.Payload, []byte{0xaf, 0x00, 0x11, 0x90}) {
+		return nil, "" // the dummy-audio filter's own sequence header (may coincide with an incarnation's config)
+	}
 	// verbatim headers / metadata of an RTMP-type incarnation
 	for x, pm := range w.P {
 		if (pm.kind == "meta" || pm.kind == "vsh" || pm.kind == "ash") && eq(pm.rec, r) {
